@@ -118,10 +118,17 @@ pub struct Fault {
 pub struct Endless {
     pub template: String,
     pub start: u64,
+    /// Some(p): the tail repeats with period p (records k and k + p are the same text)
+    #[serde(default, skip_serializing_if = "Option::is_none")]
+    pub period: Option<u64>,
 }
 
 impl Endless {
     pub fn record(&self, k: u64) -> Vec<u8> {
+        let k = match self.period {
+            Some(p) if p > 0 => k % p,
+            _ => k,
+        };
         self.template
             .replace("@@", &(self.start + k).to_string())
             .into_bytes()
